@@ -93,6 +93,20 @@ def cases(tier, seed):
                 out.append({"desc": d, "opts": opts, "source": ["list", "ref_Y", "ref_IR"][k % 3],
                             "schedules": (li in (0, len(Ls) - 1) and gi == 0) or (tier == "thorough" and mi < 3), "w": len(opts) * nlev,
                             "default_output": li == 0 and gi == 0})
+    # histories: two or three conversions in one process whose checkpoints differ in species count, ghost width and mesh
+    def hist_case(mi, nsp, ghost, opts, source="list"):
+        d = dict(meshes()[mi])
+        d.update(GEOS[1])
+        d.update({"ghost": ghost, "nspecies": nsp, "time": 0.5, "seed": seed, "int_line": False})
+        return {"desc": d, "opts": opts, "source": source, "schedules": False}
+    ON, OFF = [True, True, True], [False, False, False]
+    for chain in ([(0, 3, 1), (1, 1, 2)], [(0, 1, 2), (1, 3, 1)], [(1, 2, 1), (0, 3, 3)], [(0, 3, 1), (1, 1, 2), (0, 2, 1)], [(1, 1, 3), (1, 3, 3)]):
+        for src in ("list", "ref_Y"):
+            hs = [hist_case(mi, nsp, gh, [ON, OFF], src) for mi, nsp, gh in chain]
+            last = dict(hs[-1])
+            last["before"] = hs[:-1]
+            last["w"] = 4 * len(hs)
+            out.append(last)
     # the optional integer line before the time
     d = dict(meshes()[1])
     d.update(GEOS[1])
@@ -138,6 +152,17 @@ def run_case(case, workdir):
         cls = sys.modules["amr_kitchen.chk2plt.chk2plt"]
     chk2plt = cls.chk2plt
     rec = Rec()
+    # conversions that happen earlier IN THE SAME PROCESS (a converter must not remember the checkpoint before)
+    for i, prev in enumerate(case.get("before", [])):
+        wd = os.path.join(workdir, "before%d" % i)
+        os.makedirs(wd)
+        _convert_and_check(prev, wd, rec, chk2plt)
+        shutil.rmtree(wd, ignore_errors=True)
+    _convert_and_check(case, workdir, rec, chk2plt)
+    return rec.result()
+
+
+def _convert_and_check(case, workdir, rec, chk2plt):
     desc = case["desc"]
     chk = os.path.join(workdir, "chk00005")
     d, interior = chkmodel.write_checkpoint(desc, chk)
@@ -234,8 +259,7 @@ def run_case(case, workdir):
         rec.fail("checkpoint_modified", {}, "")
     if case.get("default_output"):
         default_output_step(rec, case, workdir, chk, chk2plt, dh, dict(api_kw))
-    rec.sample({"desc": desc, "species_source": case["source"], "options": case["opts"][:2]})
-    return rec.result()
+    rec.sample({"desc": desc, "species_source": case["source"], "options": case["opts"][:2], "conversions_before": len(case.get("before", []))})
 
 
 DEFAULT_SPELLINGS = ["plain", "slash", "slashdot", "relative_dotslash", "symlink_latest", "renamed_restart", "cwd_dot", "renamed_with_plt"]
